@@ -374,6 +374,8 @@ def build_near(spec):
     return vs, [float(x) for x in rv], [float(x) for x in nv]
 
 
+# (vertices within a few ulps of the plane: their signs are what the implementation's own arithmetic says, and that depends
+# on the order NumPy sums in, i.e. on the memory layout -- these arguments keep theirs in the layout runs)
 def make_near(spec):
     """inputs whose signs are a matter of rounding: signs / signed distances as observed on the implementation"""
     from polliwog import Plane, Polyline
@@ -385,15 +387,15 @@ def make_near(spec):
     V = np.array(np.reshape(vs, (-1, 3)), dtype=np.float64)
     plane = Plane(np.array(ref, dtype=np.float64), np.array(nrm, dtype=np.float64))
     scale = max(gens.maxabs(V, ref), 1e-300)
-    signs = [int(x) for x in np.atleast_1d(plane.sign(shcopy(V)))] if len(V) else []
-    dist = [float(x) for x in np.atleast_1d(plane.signed_distance(shcopy(V)))] if len(V) else []
+    signs = [int(x) for x in np.atleast_1d(plane.sign(shcopy(V, keep_layout=True)))] if len(V) else []
+    dist = [float(x) for x in np.atleast_1d(plane.signed_distance(shcopy(V, keep_layout=True)))] if len(V) else []
     cat, e = category(vs, ref, nrm, closed, signs)
     tol = Fraction(1e-9) * Fraction(scale)
     nearcount = sum(1 for p in vs if abs(exact_d(p, ref, nrm)) <= Fraction(1e-12) * Fraction(scale))
     kl = "%s/%s/%s/%s" % (spec["op"], "closed" if closed else "open", cat, "near%d" % min(nearcount, 3))
 
     def impl_poly():
-        r = Polyline(shcopy(V), is_closed=closed).sliced_by_plane(plane)
+        r = Polyline(shcopy(V, keep_layout=True), is_closed=closed).sliced_by_plane(plane)
         return [bool(r.is_closed), int(len(r.v))] + flat(r.v)
 
     line = Line("slice.given").b(closed).i(len(vs))
